@@ -118,27 +118,19 @@ theorem c29_recover_success_sound (af hs : Bool) (mode : RetryMode) (items : Lis
               · split <;> simp_all [ROut.error, ROut.appended]
               · split <;> simp_all [ROut.error, ROut.appended]
 
-/-- `activeAppendItems` as coded hands exactly the live items to the Appender, in order, PROVIDED items 0
-    and 1 are not both inactive (`_partial`: the hypothesis is necessary, see the counterexample) -/
-theorem c29_active_items_partial (flags : List Bool)
-    (h : ¬ ∃ r, flags = true :: true :: r) : activeItems flags = liveFrom flags 0 := by
-  rw [activeItems_eq]
-  match flags, h with
-  | [], _ => rfl
-  | [true], _ => rfl
-  | [false], _ => rfl
-  | false :: _ :: _, _ => rfl
-  | true :: false :: _, _ => rfl
-  | true :: true :: r, h => exact absurd ⟨r, rfl⟩ h
+/-- `activeAppendItems` as coded hands exactly the live items to the Appender, in order — for every
+    pattern of expired / live items -/
+theorem c29_active_items (flags : List Bool) : activeItems flags = liveFrom flags 0 := by
+  simpa [activeItems] using activeGo_unfiltered' flags 0 []
 
-example : activeItems [true, false, true, false] = [1, 3] := by decide
+example : activeItems [true, true, false, true, false] = [2, 4] := by decide
 
-/-- UNCHANGED TREE: with two leading inactive items the expired item 0 is resurrected — `append(nil,
-    items[:0]...)` stays nil, so the `active == nil` branch copies `items[:1]` at the second inactive item.
-    Reproduced through the public API by the op `expired xxl` (sent=0,2). -/
-theorem c29_active_items_resurrects_counterexample (r : List Bool) :
-    activeItems (true :: true :: r) = 0 :: liveFrom r 2 := by
-  rw [activeItems_eq]; simp [liveFrom]
+/-- BEFORE the repair (commit adc9a053f): with two leading inactive items the expired item 0 was resurrected —
+    `append(nil, items[:0]...)` stays nil, so the `active == nil` branch copied `items[:1]` at the second
+    inactive item.  Replayed through the public API by corpus/C29/expired_xxl.ops (old code: sent=0,2). -/
+theorem c29_active_items_pre_fix_counterexample (r : List Bool) :
+    activeItemsPreFix (true :: true :: r) = 0 :: liveFrom r 2 := by
+  rw [activeItemsPreFix_eq]; simp [liveFrom]
 
 /-- ordered completion drain (`c29_seq_increasing`, drain half): whatever the arrival order of append
     completions — duplicates and stale arrivals included — they are handed on in batch-sequence order
